@@ -361,7 +361,8 @@ def run(case):
                     yield "list:long-untyped", [("r", {"L": ["name with blanks %d %s" % (i, "x" * (k % 4)) for i in range(9)]})]
                 yield "list:long-numbers", [("r", {"LN": [i + 0.125 for i in range(40)]})]
                 for md in ({}, {"DisplayName": "The Command"}, {"A": "B", "C": "d e"}, {"k 1": "v:1", "k2": "say \"x\""}, {"K": "a\\b"},
-                           {"DisplayName": "Tree cover\n(percent of cell)"}, {"DisplayName": "# looks like a comment", "Note": "l1\r\nl2"}):
+                           {"DisplayName": "Tree cover\n(percent of cell)"}, {"DisplayName": "# looks like a comment", "Note": "l1\r\nl2"},
+                           {"HucCode": "0102", "DataVersion": "2.10", "PlotId": "007", "Delta": "+5", "Exp": "1e3", "Threshold": "0.5"}):  # text that looks like a number stays that text
                     yield "metadata", [("r", {"N": 1, "Metadata": md})]
                 for dt in ("Float", "Integer"):
                     yield "datatype:name", [("r", {"DT": dt})]
